@@ -65,6 +65,16 @@ def run(tier, v, wd, replay=None):
     res = run_vectors(v, wd, repo, "./control/", "TestVerifC09HitPath", hfile, tags="verif,dae_stub_ebpf", timeout=900, outname="out-hit.json")
     if (res.get("counters") or {}).get("c09hit_undecided", 0) > len(open(hfile).readlines()) // 2:
         raise vlib.Infra("the packet-path replay could not be driven: %s" % (res.get("notes") or [])[:3])
+    # an upstream declared tcp+udp: truncated and foreign datagrams left in the pooled socket, the TCP retry answered or failing (DnsFallback.tla)
+    fb = os.path.join(wd.path, "c09fb.ndjson")
+    r = vlib.tlc(wd, "DnsFallback", "DnsFallback_gen.cfg" if tier == "quick" else "DnsFallback_gen3.cfg", emit_to=fb, timeout=900)
+    v.add_tlc(r)
+    if r.violated:
+        raise vlib.Infra("DnsFallback.tla violates %s in the model" % r.violated)
+    r = vlib.tlc(wd, "DnsFallback", "DnsFallback_served.cfg", timeout=600, workers=1)
+    if r.violated != "ReplyOwn":
+        raise vlib.Infra("DnsFallback.tla with a controller that serves the truncated datagram no longer violates ReplyOwn: vacuous model")
+    run_vectors(v, wd, repo, "./control/", "TestVerifC09Fallback", fb, tags="verif,dae_stub_ebpf", timeout=1500, outname="out-fb.json")
     # the forwarder cache: use counting, retirement after errors, the idle janitor (FwdIdle.tla)
     r = vlib.tlc(wd, "FwdIdle", "FwdIdle_mc.cfg", timeout=900)
     v.add_tlc(r)
@@ -112,7 +122,8 @@ def run(tier, v, wd, replay=None):
             else:
                 raise vlib.Infra("trace validation: recorded executions not accepted by FwdIdle.tla (no verdict):\n%s" % r.out[-1500:])
         v.coverage["fwd_trace_lines_validated"] = sum(1 for _ in open(ftrace))
-    v.assumptions += ["forwarder cache: fake forwarders behind the dnsForwarderFactory seam hold every exchange until the history answers it; the janitor and the queries are parked at the verif yield points dnsfwd.evict.idle / dnsfwd.acquired; virtual time",
+    v.assumptions += ["tcp+udp fallback: queries one after another under one transaction id, each for a name of its own; the server's datagrams and the fate of the TCP retry are scripted per query; real DoUDP (pooled socket) and DoTCP (pipelined connection) over in-memory sockets, virtual time",
+                      "forwarder cache: fake forwarders behind the dnsForwarderFactory seam hold every exchange until the history answers it; the janitor and the queries are parked at the verif yield points dnsfwd.evict.idle / dnsfwd.acquired; virtual time",
                       "packet path: real loopback UDP sockets; the point between patching and sending is the trace message sendPkt logs (a logging hook parks the goroutine there)",
                       "one upstream reached as-is; real DoUDP (udpConnPool) / DoTCP (pipelinedConn) forwarders over in-memory sockets and a scripted server; virtual time (testing/synctest)",
                       "data is consumed as soon as it arrives (every goroutine runs to a durable block between steps): races inside one step are not explored",
